@@ -44,6 +44,8 @@ for s in seeds:
 lock = threading.Lock()
 
 def worker(i):
+    import time
+    time.sleep(6 * i)  # staggered start: the workers set up their worktrees one after the other
     wt, bd, rc, evd, rp = f"/tmp/mw{i}", f"/tmp/mb{i}", f"/tmp/mr{i}", f"/tmp/me{i}", f"/tmp/mp{i}"
     subprocess.run(["git", "-C", "/repo", "worktree", "remove", "--force", wt], capture_output=True)
     assert subprocess.run(["git", "-C", "/repo", "worktree", "add", "--detach", wt, "HEAD", "-q"]).returncode == 0
@@ -68,6 +70,7 @@ def worker(i):
                 print(s, "patch does not apply:", r.stderr.strip()[:200], flush=True)
             continue
         row = {}
+        assert subprocess.run(["git", "-C", wt, "diff", "--quiet"]).returncode == 1, "patch not in the worktree"
         try:
             for p in claimed:
                 if not relevant(p, target, touched):
@@ -77,6 +80,8 @@ def worker(i):
                 lines = [l for l in o.stdout.split("\n") if re.match(r"^(PASS|VIOLATION|INCONCLUSIVE|FAILED-OBLIGATION|KNOWN)", l)]
                 cl = sorted({m.group(1) for l in lines for m in [re.search(r"clause=(\S+)", l)] if m})
                 row[p] = {"exit": o.returncode, "clauses": cl, "line": (lines[-1] if lines else "")[:300]}
+            if subprocess.run(["git", "-C", wt, "diff", "--quiet"]).returncode != 1:
+                row = {p: dict(v, line="INVALID ROW: the worktree lost the patch during the run") for p, v in row.items()}
         finally:
             subprocess.run(["git", "-C", wt, "checkout", "--", "."])
             subprocess.run(["git", "-C", wt, "clean", "-fdq"])
